@@ -142,27 +142,25 @@ def run_property(prop, rules, tier, seed, meta):
     t0 = time.time()
     ctx = Ctx(tier, prop)
     results = []
-    try:
-        for r in rules:
+    errors = []
+    todo = list(rules)
+    if tier == 'thorough':
+        from .selftest import selftest_rule
+        todo += list(meta.get('thorough', [])) + [selftest_rule(prop)]
+    for r in todo:
+        try:
             out = r(ctx)
-            if out is None:
-                continue
-            results += out if isinstance(out, list) else [out]
-        if tier == 'thorough':
-            from .selftest import selftest_rule
-            extra = list(meta.get('thorough', [])) + [selftest_rule(prop)]
-            for r in extra:
-                out = r(ctx)
-                if out is None:
-                    continue
-                results += out if isinstance(out, list) else [out]
-    except AnalysisError as e:
-        print(f'ANALYSIS-ERROR property={prop} {e}')
-        return 2
-    except Exception:
-        tb = traceback.format_exc()
-        print(f'ANALYSIS-ERROR property={prop} internal exception\n{tb}')
-        return 2
+        except AnalysisError as e:
+            errors.append(f'{getattr(r, "__name__", "rule")}: {e}')
+            continue
+        except Exception:
+            tb = traceback.format_exc()
+            errors.append(f'{getattr(r, "__name__", "rule")}: internal '
+                          f'exception\n{tb}')
+            continue
+        if out is None:
+            continue
+        results += out if isinstance(out, list) else [out]
     known = load_known()
     new, knownhits = [], []
     seen = set()
@@ -186,6 +184,12 @@ def run_property(prop, rules, tier, seed, meta):
         print(f'  [{res.rule}] obligations={res.obligations} '
               f'discharged={res.discharged} findings={len(res.findings)} '
               f'-- {res.what}')
+    for e in errors:
+        print(f'ANALYSIS-ERROR property={prop} {e}')
+    if errors and not new:
+        # the analysis could not stand for some rule and nothing definite was
+        # found: not a verdict
+        return 2
     if new:
         os.makedirs(os.path.join(VERIF, 'replay'), exist_ok=True)
         rp = os.path.join(VERIF, 'replay', f'{prop}.json')
